@@ -4,6 +4,8 @@ use crate::proto::{big_ratio, big_to_f64};
 #[derive(Clone, Copy, Debug)]
 pub struct Mode {
     pub rel: f64,
+    /// floor of the relative tolerance: |a-b| <= rel * max(floor, |b|)
+    pub floor: f64,
     pub int_out: bool,
     /// plain integer output: a null is NaN's integer cast (0); false for Option<i32> (None)
     pub null_is_zero: bool,
@@ -12,10 +14,10 @@ pub struct Mode {
 impl Mode {
     pub fn of(o: &str) -> Mode {
         match o {
-            "f32" => Mode { rel: 2e-5, int_out: false, null_is_zero: false },
-            "i32" => Mode { rel: 1e-9, int_out: true, null_is_zero: true },
-            "oi32" => Mode { rel: 1e-9, int_out: true, null_is_zero: false },
-            _ => Mode { rel: 1e-9, int_out: false, null_is_zero: false },
+            "f32" => Mode { rel: 2e-5, floor: 1.0, int_out: false, null_is_zero: false },
+            "i32" => Mode { rel: 1e-9, floor: 1.0, int_out: true, null_is_zero: true },
+            "oi32" => Mode { rel: 1e-9, floor: 1.0, int_out: true, null_is_zero: false },
+            _ => Mode { rel: 1e-9, floor: 1.0, int_out: false, null_is_zero: false },
         }
     }
 }
@@ -61,6 +63,9 @@ fn mtok(t: &str) -> MTok {
 fn close(a: f64, b: f64, rel: f64) -> bool {
     (a - b).abs() <= rel * 1f64.max(b.abs())
 }
+fn close_f(a: f64, b: f64, rel: f64, floor: f64) -> bool {
+    (a - b).abs() <= rel * floor.max(b.abs())
+}
 
 fn int_matches(k: i64, x: f64) -> bool {
     // `as i32` : truncation toward zero, saturating; accept either neighbour at an integer boundary
@@ -102,14 +107,14 @@ pub fn tok_eq(impl_t: &str, model_t: &str, m: Mode) -> bool {
         return match mt {
             MTok::Null => false,
             MTok::Degen => v.is_infinite(),
-            MTok::Val(x) => v.is_finite() && close(v, x, m.rel),
+            MTok::Val(x) => v.is_finite() && close_f(v, x, m.rel, m.floor),
             MTok::Root(s, q) => {
                 // either the square matches and the sign is right, or the value itself is within the
                 // (possibly history-scaled, DESIGN 5.1) tolerance of sign * sqrt(q)
                 v.is_finite()
-                    && ((close(v * v, q, 2. * m.rel)
-                        && (if s > 0 { v >= 0. } else if s < 0 { v <= 0. } else { v.abs() <= 1e-6 }))
-                        || close(v, s as f64 * q.sqrt(), m.rel))
+                    && ((close_f(v * v, q, 2. * m.rel, m.floor * m.floor)
+                        && (if s > 0 { v >= 0. } else if s < 0 { v <= 0. } else { v.abs() <= 1e-6 * m.floor }))
+                        || close_f(v, s as f64 * q.sqrt(), m.rel, m.floor))
             },
             MTok::Lit => false,
         };
@@ -129,6 +134,12 @@ pub fn line_eq(impl_l: &str, model_l: &str, m: Mode) -> bool {
 /// as `line_eq`, with a per-position relative tolerance for the tokens of the first group
 /// (conditioning-aware comparison of cancellation-prone closed forms, DESIGN 5.1)
 pub fn line_eq_tols(impl_l: &str, model_l: &str, m: Mode, tols: Option<&[f64]>) -> bool {
+    let tf: Option<Vec<(f64, f64)>> = tols.map(|t| t.iter().map(|x| (*x, 1.0)).collect());
+    line_eq_tf(impl_l, model_l, m, tf.as_deref())
+}
+
+/// as `line_eq_tols` with a (relative tolerance, floor) pair per position of the first group
+pub fn line_eq_tf(impl_l: &str, model_l: &str, m: Mode, tols: Option<&[(f64, f64)]>) -> bool {
     if impl_l == model_l {
         return true;
     }
@@ -148,7 +159,8 @@ pub fn line_eq_tols(impl_l: &str, model_l: &str, m: Mode, tols: Option<&[f64]>) 
             if gi_idx == 0 {
                 if let Some(t) = tols {
                     if let Some(ti) = t.get(i) {
-                        mm.rel = mm.rel.max(*ti);
+                        mm.rel = mm.rel.max(ti.0);
+                        mm.floor = ti.1;
                     }
                 }
             }
